@@ -29,7 +29,7 @@ class C02(PropCheck):
     id = 'C02'
     extractors = ()
     modules = ('WpModel.Props.C02', 'WpModel.Props.C02Pm2', 'WpModel.Props.C02Oof', 'WpModel.Props.C03Foot',
-               'WpModel.Props.C02Extra', 'WpModel.Witness.C02Growth')
+               'WpModel.Props.C02Extra', 'WpModel.Witness.C02Growth', 'WpModel.Props.C02RowEnding')
     trusted_base = (
         'modelled, not verified: the pagination functions of block.py / page.py (see C01); everything outside the '
         'model (inline layout, tables, flex, grid, drawing, PDF writing) is exercised only by the sampled totality runs',
